@@ -128,16 +128,17 @@ def gen_cases(ctx, scale):
 
 
 def gen_assign(ctx):
-    """move- and copy-assignment (not in the model's alphabet: the destination's old version cell is destroyed, so only handles
-    of the SOURCE are used afterwards -- they follow the contents on a move and stay with the source on a copy)"""
+    """move- and copy-assignment: the destination's old version cell is destroyed (handles into it are dropped by model and harness),
+    handles of the SOURCE follow the contents on a move and stay with the source on a copy"""
     cases = []
     for kind in KINDS:
         tree = kind[0] == 't'
         for st in (['insmany,0,10,5'], ['insmany,0,10,40'], ['insmany,0,10,5', 'insmany,1,100,4'], []):
-            acq = ['find,0,12,1', 'find,0,70,2', 'begin,0,3', 'ins,0,12,5'] + (['lower,0,12,6'] if tree else [])
+            acq = ['find,0,12,1', 'find,0,70,2', 'begin,0,3', 'ins,0,12,5'] + (['lower,0,12,6'] if tree else []) + \
+                  ['find,1,100,7', 'find,1,5,8', 'begin,1,9']          # handles into the destination: dropped by the assignment
             for op in ('moveto,0', 'copyto,0'):
                 uses_ = ['deref,1', 'chk,0,1,0', 'chk,1,1,0', 'chk,0,2,0', 'chk,1,2,0', 'deref,3', 'deref,5', 'reset,0,1,12', 'reset,1,1,12',
-                         'rmat,0,1', 'rmat,1,1', 'deref,5', 'find,0,12,30', 'find,1,12,31', 'deref,30', 'deref,31', 'ins,0,99,32', 'ins,1,98,33',
+                         'deref,7', 'chk,1,7,0', 'chk,1,8,1', 'chk,1,9,0', 'rmat,0,1', 'rmat,1,1', 'deref,5', 'find,0,12,30', 'find,1,12,31', 'deref,30', 'deref,31', 'ins,0,99,32', 'ins,1,98,33',
                          'deref,32', 'deref,33', 'count,0', 'count,1']
                 cases.append(' '.join([kind] + st + acq + [op] + uses_))
     return cases
@@ -159,7 +160,7 @@ def gen_random(ctx, scale):
                 ops.append('insmany,1,%d,%d' % (r.range(1, 12), r.choice([1, 3, 6, 33])))
             for _ in range(r.range(4, 14)):
                 c = r.below(2); k = r.range(1, 12); s = r.below(5); s2 = r.below(5)
-                t = r.below(27)
+                t = r.below(28)
                 if t == 0: ops.append('find,%d,%d,%d' % (c, k, s))
                 elif t == 1: ops.append('begin,%d,%d' % (c, s))
                 elif t == 2: ops.append('end,%d,%d' % (c, s))
@@ -185,6 +186,7 @@ def gen_random(ctx, scale):
                 elif t == 24: ops.append('count,%d' % c)
                 elif t == 25: ops.append('has,%d,%d' % (c, k))
                 elif t == 26: ops += ['find,%d,%d,%d' % (c, k, s), 'extract,%d,%d' % (c, s), 'insext,%d,%d,%d' % (r.below(2), k, s2)]
+                elif t == 27: ops.append('%s,%d' % (r.choice(['moveto', 'copyto']), c))
             for s in range(5):
                 ops.append('deref,%d' % s)
             cases.append(' '.join([kind] + ops))
@@ -294,11 +296,15 @@ def oracle_case(case, out):
                     sp.keys[v[0]] = None if n > 0 else sp.keys[v[0]]
         elif name == 'moveto':
             s_, d_ = v[0], 1 - v[0]
+            for hh in sp.h.values():
+                if hh['ident'] == sp.ident[d_]: hh['what'] = 'null'
             sp.keys[d_] = sp.keys[s_]; sp.keys[s_] = set()
             sp.ident[d_] = sp.ident[s_]; sp.ident[s_] = max(sp.epoch) + 1
             sp.epoch[sp.ident[s_]] = 0; sp.touch[sp.ident[s_]] = 0
         elif name == 'copyto':
             s_, d_ = v[0], 1 - v[0]
+            for hh in sp.h.values():
+                if hh['ident'] == sp.ident[d_]: hh['what'] = 'null'
             sp.keys[d_] = set(sp.keys[s_]); sp.ident[d_] = max(sp.epoch) + 1
             sp.epoch[sp.ident[d_]] = 0; sp.touch[sp.ident[d_]] = 0
         elif name == 'addatext':
@@ -397,7 +403,7 @@ def measure2(cases, lines):
 
 # ----------------------------------------------------------------------------------------------- stages
 GEN = ['gen_keeper.json', 'gen_arrit.json', 'gen_shifter.json', 'gen_array.json', 'gen_mmguard.json', 'gen_selguard.json',
-       'gen_dtguard.json', 'gen_treeit.json']
+       'gen_dtguard.json', 'gen_treeit.json', 'gen_segarr.json']
 
 
 def regen_table(ctx):
@@ -453,9 +459,11 @@ def replay(ctx, rp):
 
 
 def finding_key(case, why=''):
-    """key of a reported-but-not-yet-fixed momo defect this failing case is an instance of (for known_findings.txt), else None.
-    No open findings: the overflow keys (round 3) and the stale-selection keys (round 4) were dropped when /repo commits
-    bcbf078 and f5d4e4e fixed them."""
+    """key of a reported-but-not-yet-fixed momo defect this failing case is an instance of (for known_findings.txt), else None"""
+    w = case.split()
+    # ArrayIndexIterator::operator+= adds in ptrdiff_t: index + diff overflows (UB, UBSan in the thorough tier) before the check
+    if len(w) == 6 and w[0] == 'g' and w[1] == 'adv' and 'CRASH' in why and int(w[4]) + int(w[5]) >= 2 ** 63:
+        return 'arrayindexiterator-advance-signed-overflow'
     return None
 
 
@@ -517,7 +525,7 @@ def run(ctx):
     if harness is None:
         ctx.stage('build-harness', False, getattr(ctx, 'last_cxx_error', ''))
         return ctx.finish(rule=RULE)
-    cases = gen_cases(ctx, scale)
+    cases = gen_cases(ctx, scale) + gen_assign(ctx)
     have_model = ctx.stages.get('prove', {}).get('ok') and ctx.extract()
     lines = None
     if have_model:
@@ -537,7 +545,6 @@ def run(ctx):
     if any(not s['ok'] for s in ctx.stages.values()):
         ctx.log('a stage broke: searching the implementation for a failing input with the thorough generator')
         cases = cases + gen_cases(ctx, 6)[:len(cases)]
-    cases = cases + gen_assign(ctx)          # move / copy assignment: oracle only (not in the model's alphabet)
     rc, lines, err = run_harness(ctx, harness, cases, 'oracle')
     ctx.evaluations += len(cases)
     bad = oracle(ctx, cases, lines)
@@ -599,9 +606,7 @@ def run(ctx):
                                             'ok': not mismg})
                 import collections
                 ctx.coverage['generated_guard_cases'] = dict(collections.Counter(c.split()[1] for c in cg))
-                for (i, c, a, b) in mismg[:3]:
-                    ctx.violation('generated guard and real function disagree: real=%s generated=%s' % (a, b),
-                                  {'case': c, 'impl': a, 'model': b, 'harness': 'harness3', 'cmd': 'echo "%s" | build/C15/harness3' % c}, found_input=True)
+                report(ctx, [(c, a, 'generated guard and real function disagree: real=%s generated=%s' % (a, b)) for (i, c, a, b) in mismg], 'harness3')
             c3 = c3 + cases3.gen_guards()
             rc, l3, err = run_harness(ctx, h3, c3, 'oracle3')
             ctx.evaluations += len(c3)
